@@ -408,6 +408,24 @@ def check_counted_fill(ctx):
             nloops += 1
             cfg = cfg_of(f)
             head, body0 = cfg.idx(n), cfg.idx(n.body[0])
+            # a store inside an inner loop that certainly runs (range(k) with a positive literal k, a non-empty literal
+            # sequence) and cannot be left early is represented by that loop: reaching the loop is reaching the store
+            pm_ = prog.parents(f)
+
+            def certain(st_):
+                cur_ = st_
+                while id(cur_) in pm_ and pm_[id(cur_)] is not n:
+                    par_ = pm_[id(cur_)]
+                    if isinstance(par_, ast.For):
+                        it_ = par_.iter
+                        runs = (isinstance(it_, ast.Call) and isinstance(it_.func, ast.Name) and it_.func.id == "range" and len(it_.args) == 1 and isinstance(it_.args[0], ast.Constant) and isinstance(it_.args[0].value, int) and it_.args[0].value >= 1) or (isinstance(it_, (ast.Tuple, ast.List)) and len(it_.elts) >= 1)
+                        first_ = par_.body[0] is cur_ or any(cur_ is b for b in par_.body) and not any(isinstance(x, (ast.Break, ast.Continue, ast.If, ast.Try)) for b in par_.body[: par_.body.index(cur_)] for x in ast.walk(b))
+                        if runs and first_ and not par_.orelse:
+                            st_ = par_
+                    cur_ = par_
+                return st_
+
+            stores = [(a_, certain(st_)) for a_, st_ in stores]
             allst = [cfg.idx(st) for _, st in stores]
             where = f"{f.module.relpath}:{n.lineno}"
             if body0 not in allst and not cfg.must_pass([head], allst, start=body0):
